@@ -210,7 +210,9 @@ def main():
             known_hits.append((o, known_ids[o['id']]))
         else:
             violations.append(o)
-    proved = [o for o in obligations if not o.get('bounded') and not o.get('frame')]
+    known_failed_ids = set(o['id'] for o, _ in known_hits)
+    # a recorded finding is reported, not counted: neither as an obligation nor as discharged
+    proved = [o for o in obligations if not o.get('bounded') and not o.get('frame') and o['id'] not in known_failed_ids]
     bounded = [o for o in obligations if o.get('bounded')]
     wall = time.time() - t0
 
